@@ -879,6 +879,10 @@ def generate(rng):
     limit["^%s$" % n] = fix_entry(gen_lim_entry(
         rng, "Activation" if l["t"] == "Activation" else (
             l["t"] if l["t"] in SEQUENCE else "Dense")))
+  if len(limit) == 2 and rng.chance(0.5):
+    # overlapping patterns: the specific one listed BEFORE the general one
+    # (the first match governs)
+    limit = dict(reversed(list(limit.items())))
   for c in classes:
     if rng.chance(0.8):
       limit[c] = fix_entry(gen_lim_entry(rng, c))
